@@ -36,6 +36,21 @@ Definition form_plan_of (rf cf : form) (ordered : list bytes) : form_plan :=
          else FBadOrdered
   end.
 
+(* the url-encoded branch as it was before 86187ab / e087dcd (kept for the refutation below):
+   plain form data wins, ordered data is then ignored; an odd list sets r.error but the request
+   is sent with an empty body *)
+Definition form_plan_of_pinned (rf cf : form) (ordered : list bytes) : form_plan :=
+  match merged_form rf cf with
+  | (_ :: _) as m => FBody (encode_form m)
+  | [] => match ordered with
+          | [] => FNone
+          | _ => match encode_ordered ordered with
+                 | Some b => FBody b
+                 | None => FBody []
+                 end
+          end
+  end.
+
 (* util.IsXMLType *)
 Definition is_xml_type (ct : bytes) : bool := contains_sub (bs "xml") ct.
 
@@ -79,6 +94,14 @@ Inductive plan :=
 Definition multipart_fields (q : breq) : list (bytes * bytes) :=
   pair_up (q_ordered q) ++
   flat_map (fun k => map (pair k) (lookup k (merged_form (q_rform q) (q_cform q)))) (q_key_order q).
+
+(* writeMultiPart before c23d1ba / 86187ab: the client-level form data is not merged, and ordered
+   pairs are written only when there is no plain form data *)
+Definition multipart_fields_pinned (q : breq) : list (bytes * bytes) :=
+  match q_rform q with
+  | [] => pair_up (q_ordered q)
+  | rf => flat_map (fun k => map (pair k) (lookup k rf)) (q_key_order q)
+  end.
 
 Section Plan.
   Variable sniff : bytes -> bytes.
